@@ -22,6 +22,12 @@ CHECKS = {
     design_ref="DESIGN.md §5 C09",
     note="Trusted: TLC, Text.tla position function, harness projection. Inclusive range ends; label range includes the colon; CRLF handled under C07.",
     technique="TLA+ position function (Text!PosOf) + TLC-generated layouts replayed into lexer/parser/lints + TLC trace validation of every reported location"),
+ "C07": dict(
+    category="model_checking",
+    text="TLC enumerates Gen_Lines exhaustively (all NL-line files over 9 well-formed line kinds with one malformed line of 13 fault kinds at every position, 3 line endings; NL=3 quick / NL=4 thorough), each with its twin where the malformed line is deleted; the real parser runs on both and TLC validates the recorded (nodes, errors): every non-blank, non-comment line is covered by a node or by an error located on it (Accounted), and the nodes/errors of all other lines equal the twin's (Contained). Every fifth file goes through .include; faults are also injected into repository/corpus programs.",
+    design_ref="DESIGN.md §5 C07",
+    note="Trusted: TLC, Text.tla line functions, harness projection. Blank = only spaces/tabs/commas/CR; comment-only = first other char '#'.",
+    technique="TLA+ line-accounting reference (Text.tla) + TLC-generated faulty files and twins replayed into the real parser + TLC trace validation"),
 }
 PENDING = "check not built yet in this round (planned, see DESIGN.md §5); not claimed until its check is green on the unchanged tree"
 m = {
